@@ -1,4 +1,5 @@
 import Qryn.LogQL.SemStages
+import Qryn.Read.JsonPathSyntax
 import Driver.C07
 import Std.Data.HashMap
 /-! Line protocol for C09. Ops:
@@ -223,12 +224,24 @@ def seg? (s : String) : Option PathSeg :=
   else if s.startsWith "i" then do some (.idx (← (tail1 s).toNat?))
   else none
 
+/-- `<name>=<typed path>[=<path text>]`: the typed path is what `shared.JsonPathParamToTypedArray` returned; when the
+    text is given and lies in the fragment `Read.parsePath` models, the two have to agree (else the op is refused) -/
 def ahead? (s : String) : Option Ahead :=
   match s.splitOn "=" with
   | [l, p] => do
     let segs ← if p = "_" then some [] else (p.splitOn "/").mapM seg?
     some (← ofHex l, segs)
+  | [l, p, t] => do
+    let segs ← if p = "_" then some [] else (p.splitOn "/").mapM seg?
+    match parsePath (← ofHex t) with
+    | .outside => some (← ofHex l, segs)
+    | .ok p' => if p' = segs then some (← ofHex l, segs) else none
+    | .err => none
   | _ => none
+
+def segText : PathSeg → String
+  | .key k => "k" ++ hexOut k
+  | .idx i => "i" ++ toString i
 
 def num? (s : String) : Option Float := do parseFloat (← ofHex s)
 
@@ -239,14 +252,10 @@ def stageK? (s : String) : Option (StageK Float) :=
     let toks := e.splitOn ","
     let (c, rest) ← Driver.C07.cond? (toks.length + 1) toks
     if rest.isEmpty then some (.labelFilter c) else none
-  | ["P", "json"] => some (.parser .json)
-  | ["P", "logfmt"] => some (.parser .logfmt)
-  | ["P", "jsonp", ps] => do some (.parser (.jsonParams (← (ps.splitOn ",").mapM ahead?)))
-  | ["P", "logfmtp", ps] => do
-    let fs ← if ps = "_" then some [] else (ps.splitOn ",").mapM (fun kv => match kv.splitOn "=" with
-      | [k, v] => do some (← ofHex k, ← ofHex v)
-      | _ => none)
-    some (.parser (.logfmtParams fs))
+  | ["P", "json"] => do some (.parser (← planParser .json []))
+  | ["P", "logfmt"] => do some (.parser (← planParser .logfmt []))
+  | ["P", "jsonp", ps] => do some (.parser (← planParser .json (← (ps.splitOn ",").mapM ahead?)))
+  | ["P", "logfmtp", ps] => do some (.parser (← planParser .logfmt (← (ps.splitOn ",").mapM ahead?)))
   | ["LF", ops] => do
     some (.labelFormat (← (ops.splitOn ",").mapM (fun o => match o.splitOn "." with
       | ["c", l, v] => do some (FormatOp.const (← ofHex l) (← ofHex v))
@@ -402,6 +411,20 @@ def handle : List String → Option String
     else if mode = "model" then some (canon (runPlan E c p batches))
     else if mode = "spec" then some (canon (Qryn.LogQL.Stages.evalPlan E c p (batches.flatten.filter (·.err.isNone))))
     else none
+  | ["c09path", t] => do
+    match parsePath (← ofHex t) with
+    | .outside => some "outside"
+    | .err => some "err"
+    | .ok p => some ("ok:" ++ (if p.isEmpty then "_" else "/".intercalate (p.map segText)))
+  | ["c09tags", st] => do
+    -- what GetBreakpoint sees of the modelled stages, and where splitting them again would cut
+    let stages ← if st = "-" then some [] else (st.splitOn ";").mapM stageK?
+    let name : StageTag → String
+      | .line => "line" | .labelFilter => "labelFilter" | .jsonNoParams => "jsonNoParams" | .jsonParams => "jsonParams"
+      | .logfmt => "logfmt" | .regexp => "regexp" | .lineFormat => "lineFormat" | .labelFormat => "labelFormat"
+      | .unwrap => "unwrap" | .drop => "drop"
+    let (ch, internal) := splitPipeline stages
+    some (",".intercalate (stages.map (fun s => name s.tag)) ++ s!"|{ch.length}|{match internal with | some l => toString l.length | none => "none"}")
   | ["c09bp", tags, absent] => do
     let ts ← if tags = "-" then some [] else (tags.splitOn ",").mapM tag?
     let bp := getBreakpoint ts (absent = "1")
